@@ -8,9 +8,13 @@ grace period, then bigger first) is not a strict weak order, so the sorted resul
 holds for EVERY order.
 
 Status on the pinned tree:
-* sequentially (marks unchanged during the pass) the cleaner never evicts a marked entry, evicts only whole
-  recognised entries, and when it runs (total ≥ high-water mark) ends below the low-water mark or with every
-  unprotected, removable entry gone — for every eviction order;
+* the cleaner never renames an entry that is marked when it tests it, evicts only whole recognised entries (as long
+  as removals succeed), and when it runs (total ≥ high-water mark) ends below the low-water mark or with every
+  unprotected, renameable entry gone — for every eviction order;
+* `C14_witness_marked_in_window`: the `isMarked` test and the rename are two steps; an entry that a Retrieve marks
+  in between is removed although this process is using it (replayed on the real code through a pause point);
+* `C14_witness_half_removed`: when the removal of a renamed entry fails, the entry is left half-removed under
+  `<path>=` (model only: not provoked on the real code);
 * `C14_witness_below_high`: read literally, "below the low-water mark or everything removed" also fails whenever
   low ≤ total < high: the cleaner does not start below the high-water mark (hysteresis, by design);
 * `C14_compressed_tmp_unprotected` + `C14_witness_inflight_compressed`: in a compressed cache the temporary of a
@@ -27,6 +31,9 @@ def FactsOK : Bool :=
   C14.markKeys == ["path", "path+="] &&
   C14.pathParts == ["join-b64key", "param2", "param3", "field-Suffix"] &&
   C14.tmpSuffixBytes == [61] && C14.storeMarks == ["final"] &&
+  -- Store marks the entry before it removes or writes anything; retrieveFiles marks it before it restores
+  C14.storeCalls == ["mark-final", "remove-final", "store", "rename-tmp-final"] &&
+  C14.retrieveCalls == ["exists-entry", "mark-entry", "restore", "restore"] &&
   C14.markedAdds == "recorded-size" && C14.unmarkedAdds == "walked-size" && C14.plainWalkSkipsEntryDirs &&
   C14.highTest == "return-if-total-<-high" && C14.lowTest == "<" &&
   C14.evictLoop == ["skip-if-marked", "aside-name-is-path-plus-eq", "rename-aside", "remove-renamed",
@@ -42,80 +49,114 @@ def recognised (compress isDir : Bool) (name : Bytes) : Bool :=
 
 /-! ## The eviction loop, for every order -/
 
-/-- Never a marked entry (marked as the loop sees it — `isMarked` is read again for every entry), never one whose
-    removal failed. -/
-theorem C14_never_marked (marks' : Marks) (ok : Bytes → Bool) (low : Nat) (order : List Entry) (t : Nat) :
-    ∀ e ∈ (evict marks' ok low order t).1, marks' e.path = none :=
-  fun e he => (evict_unmarked marks' ok low order t e he).1
+/-- Never an entry that is marked when the loop tests it (`isMarked` is read again for every entry, right before the
+    rename): neither among the evicted nor among the half-removed. -/
+theorem C14_never_marked (marks' : Marks) (rn rm : Bytes → Bool) (low : Nat) (order : List Entry) (t : Nat) :
+    (∀ e ∈ (evict marks' rn rm low order t).evicted, marks' e.path = none) ∧
+    (∀ e ∈ (evict marks' rn rm low order t).half, marks' e.path = none) :=
+  ⟨fun e he => ((evict_unmarked marks' rn rm low order t).1 e he).1,
+   fun e he => ((evict_unmarked marks' rn rm low order t).2 e he).1⟩
 
-/-- Only whole entries: what is evicted are candidates — recognised, unmarked entries found by the walk — each
-    taken as a whole (`os.Rename(entry.Path, …)` + `RemoveAll`); evicted and kept together are exactly the
-    candidates, nothing else is touched. -/
-theorem C14_whole_entries (marks marks' : Marks) (ok : Bytes → Bool) (low : Nat) (found order : List Entry) (t : Nat)
+/-- Only whole entries — when every `RemoveAll` of a renamed entry succeeds (`rm`): what is evicted are candidates
+    (recognised, unmarked entries found by the walk), each taken as a whole (`os.Rename(entry.Path, …)` +
+    `RemoveAll`); evicted and kept together are exactly the candidates; nothing is left half-removed.  (Renames may
+    fail: such an entry is simply kept.) -/
+theorem C14_whole_entries (marks marks' : Marks) (rn : Bytes → Bool) (low : Nat) (found order : List Entry) (t : Nat)
     (hperm : order.Perm (scan marks found).1) :
-    (∀ e ∈ (evict marks' ok low order t).1, e ∈ found ∧ marks e.path = none) ∧
-    ((evict marks' ok low order t).1 ++ (evict marks' ok low order t).2.1).Perm (scan marks found).1 := by
-  have hp := evict_perm marks' ok low order t
-  refine ⟨?_, hp.trans hperm⟩
+    let r := evict marks' rn (fun _ => true) low order t
+    (∀ e ∈ r.evicted, e ∈ found ∧ marks e.path = none) ∧ r.half = [] ∧
+    (r.evicted ++ r.kept).Perm (scan marks found).1 := by
+  intro r
+  have hp := evict_perm marks' rn (fun _ => true) low order t
+  have hh := evict_no_half marks' rn low order t
+  rw [hh, List.append_nil] at hp
+  refine ⟨?_, hh, hp.trans hperm⟩
   intro e he
   have h1 : e ∈ order := hp.subset (List.mem_append_left _ he)
   have h2 : e ∈ (scan marks found).1 := hperm.subset h1
   exact ⟨(scan_spec marks found).2.2 e h2, (scan_spec marks found).2.1 e h2⟩
 
-/-- The bound, when the cleaner runs: the returned total is below the low-water mark — and then so is the total
-    size of everything unprotected that is left, because the kept candidates fit inside the returned total — or
-    every candidate that is left is protected or could not be removed. -/
-theorem C14_bound (marks marks' : Marks) (ok : Bytes → Bool) (low : Nat) (found order : List Entry)
+/-- In general the three groups together are the candidates. -/
+theorem C14_outcome_partition (marks marks' : Marks) (rn rm : Bytes → Bool) (low : Nat) (found order : List Entry) (t : Nat)
     (hperm : order.Perm (scan marks found).1) :
-    let r := evict marks' ok low order (scan marks found).2
-    (r.2.2 < low ∧ sizeSum r.2.1 < low) ∨
-    (∀ e ∈ r.2.1, (marks' e.path).isSome = true ∨ ok e.path = false) := by
+    let r := evict marks' rn rm low order t
+    (r.evicted ++ r.kept ++ r.half).Perm (scan marks found).1 :=
+  (evict_perm marks' rn rm low order t).trans hperm
+
+/-- "NEVER PART OF AN ENTRY" FAILS when the removal of a renamed entry fails (an I/O error; logged, `continue`): the
+    entry is gone under its name and is left — possibly partly deleted — as `<path>=`, and its size stays in the
+    total.  (A later pass recognises `<path>=` as an entry and removes it.)  Not provoked on the real code. -/
+theorem C14_witness_half_removed :
+    ∃ (e : Entry) (r : Outcome), r = evict (fun _ => none) (fun _ => true) (fun _ => false) 0 [e] e.size ∧
+      r.evicted = [] ∧ r.kept = [] ∧ r.half = [e] ∧ r.total = e.size :=
+  ⟨⟨[1], 70, 0⟩, _, rfl, by decide, by decide, by decide, by decide⟩
+
+/-- The test and the rename are two steps.  An entry that a Retrieve marks in between (`win`) is unmarked when
+    tested and marked when renamed: `C14_never_marked` is about the test, and the loop removes such an entry. -/
+theorem C14_witness_marked_in_window :
+    ∃ (marksAtTest win : Marks) (e : Entry) (r : Outcome),
+      r = evict marksAtTest (fun _ => true) (fun _ => true) 0 [e] e.size ∧
+      marksAtTest e.path = none ∧ win e.path = some 0 ∧ e ∈ r.evicted :=
+  ⟨fun _ => none, fun _ => some 0, ⟨[1], 70, 0⟩, _, rfl, rfl, rfl, by decide⟩
+
+/-- The bound, when the cleaner runs: the returned total is below the low-water mark — and then so is the total
+    size of everything that is left, because the kept and the half-removed candidates fit inside the returned
+    total — or every candidate that is left untouched is protected or could not be renamed. -/
+theorem C14_bound (marks marks' : Marks) (rn rm : Bytes → Bool) (low : Nat) (found order : List Entry)
+    (hperm : order.Perm (scan marks found).1) :
+    let r := evict marks' rn rm low order (scan marks found).2
+    (r.total < low ∧ sizeSum r.kept + sizeSum r.half < low) ∨
+    (∀ e ∈ r.kept, (marks' e.path).isSome = true ∨ rn e.path = false) := by
   intro r
   have hsum : sizeSum order ≤ (scan marks found).2 := by
     rw [sizeSum_perm hperm]; exact (scan_spec marks found).1
-  rcases evict_bound marks' ok low order (scan marks found).2 with h | h
+  rcases evict_bound marks' rn rm low order (scan marks found).2 with h | h
   · left
-    have := (evict_total marks' ok low order (scan marks found).2 hsum).2
+    have := (evict_total marks' rn rm low order (scan marks found).2 hsum).2
     exact ⟨h, Nat.lt_of_le_of_lt this h⟩
   · right; exact h
 
 /-- Accounting: the returned total is the walked total minus exactly what was evicted (the uint64 subtraction
     never wraps). -/
-theorem C14_accounting (marks marks' : Marks) (ok : Bytes → Bool) (low : Nat) (found order : List Entry)
+theorem C14_accounting (marks marks' : Marks) (rn rm : Bytes → Bool) (low : Nat) (found order : List Entry)
     (hperm : order.Perm (scan marks found).1) :
-    let r := evict marks' ok low order (scan marks found).2
-    r.2.2 + sizeSum r.1 = (scan marks found).2 := by
+    let r := evict marks' rn rm low order (scan marks found).2
+    r.total + sizeSum r.evicted = (scan marks found).2 := by
   intro r
   have hsum : sizeSum order ≤ (scan marks found).2 := by
     rw [sizeSum_perm hperm]; exact (scan_spec marks found).1
-  exact (evict_total marks' ok low order (scan marks found).2 hsum).1
+  exact (evict_total marks' rn rm low order (scan marks found).2 hsum).1
 
 /-- Below the high-water mark nothing is touched. -/
-theorem C14_below_high_untouched (marks marks' : Marks) (ok : Bytes → Bool) (high low : Nat) (found order : List Entry)
-    (h : (scan marks found).2 < high) : (clean marks marks' ok high low found order).1 = [] := by
+theorem C14_below_high_untouched (marks marks' : Marks) (rn rm : Bytes → Bool) (high low : Nat) (found order : List Entry)
+    (h : (scan marks found).2 < high) :
+    (clean marks marks' rn rm high low found order).evicted = [] ∧
+    (clean marks marks' rn rm high low found order).half = [] := by
   simp [clean, h]
 
-/-- Refinement: whatever the sort produced, and whichever entries were marked between the walk and the loop, a
-    pass in which no removal fails has an outcome that satisfies the order-free specification `specOK` — the
-    predicate the harness evaluates, in Lean, on the outcomes of the real cleaner. -/
+/-- Refinement: whatever the sort produced, and whichever entries were marked between the walk and the loop's
+    tests, a pass in which no rename or removal fails has an outcome that satisfies the order-free specification
+    `specOK` — the predicate the harness evaluates, in Lean, on the outcomes of the real cleaner. -/
 theorem C14_meets_spec (marks marks' : Marks) (high low : Nat) (hlh : low ≤ high) (found order : List Entry)
     (hperm : order.Perm (scan marks found).1) :
-    let r := clean marks marks' (fun _ => true) high low found order
-    specOK marks marks' high low found r.1 r.2.2 = true := by
+    let r := clean marks marks' (fun _ => true) (fun _ => true) high low found order
+    specOK marks marks' high low found r.evicted r.total = true := by
   intro r
   by_cases hh : (scan marks found).2 < high
-  · have hr : r = ([], (scan marks found).1, (scan marks found).2) := by simp [r, clean, hh]
+  · have hr : r = ⟨[], (scan marks found).1, [], (scan marks found).2⟩ := by simp [r, clean, hh]
     simp [specOK, hh, hr]
-  · have hr : r = evict marks' (fun _ => true) low order (scan marks found).2 := by simp [r, clean, hh]
+  · have hr : r = evict marks' (fun _ => true) (fun _ => true) low order (scan marks found).2 := by simp [r, clean, hh]
     have hsum : sizeSum order ≤ (scan marks found).2 := by
       rw [sizeSum_perm hperm]; exact (scan_spec marks found).1
-    have hp := evict_perm marks' (fun _ => true) low order (scan marks found).2
-    have htot := evict_total marks' (fun _ => true) low order (scan marks found).2 hsum
-    have hbound := evict_bound marks' (fun _ => true) low order (scan marks found).2
-    have hbey := evict_not_beyond marks' (fun _ => true) low order (scan marks found).2 (by omega) hsum
-    have hun := evict_unmarked marks' (fun _ => true) low order (scan marks found).2
-    rw [← hr] at hp htot hbound hbey hun
-    have hmemc : ∀ e ∈ r.1, e ∈ (scan marks found).1 :=
+    have hp := evict_perm marks' (fun _ => true) (fun _ => true) low order (scan marks found).2
+    have hh0 := evict_no_half marks' (fun _ => true) low order (scan marks found).2
+    have htot := evict_total marks' (fun _ => true) (fun _ => true) low order (scan marks found).2 hsum
+    have hbound := evict_bound marks' (fun _ => true) (fun _ => true) low order (scan marks found).2
+    have hbey := evict_not_beyond marks' (fun _ => true) (fun _ => true) low order (scan marks found).2 (by omega) hsum
+    have hun := (evict_unmarked marks' (fun _ => true) (fun _ => true) low order (scan marks found).2).1
+    rw [← hr] at hp htot hbound hbey hun hh0
+    rw [hh0, List.append_nil] at hp
+    have hmemc : ∀ e ∈ r.evicted, e ∈ (scan marks found).1 :=
       fun e he => hperm.subset (hp.subset (List.mem_append_left _ he))
     simp only [specOK, hh, if_false, Bool.and_eq_true, Bool.or_eq_true, List.all_eq_true, List.any_eq_true,
       decide_eq_true_eq, beq_iff_eq, List.contains_iff_mem, Option.isNone_iff_eq_none, List.isEmpty_iff]
@@ -125,7 +166,7 @@ theorem C14_meets_spec (marks marks' : Marks) (high low : Nat) (hlh : low ≤ hi
       · left; exact h
       · right
         intro e he
-        have : e ∈ r.1 ++ r.2.1 := (hp.trans hperm).symm.subset he
+        have : e ∈ r.evicted ++ r.kept := (hp.trans hperm).symm.subset he
         rcases List.mem_append.mp this with h' | h'
         · left; exact h'
         · right
@@ -140,17 +181,17 @@ theorem C14_meets_spec (marks marks' : Marks) (high low : Nat) (hlh : low ≤ hi
 -- pass stops after two evictions at 117 - 20 - 30 = 67 < 70; in the order 60, 30, 20 after one, at 57.
 def exMarks : Marks := fun p => if p = [9] then some 7 else none
 def exFound : List Entry := [⟨[1], 60, 0⟩, ⟨[9], 500, 0⟩, ⟨[2], 30, 5⟩, ⟨[3], 20, 9⟩]
-example : clean exMarks exMarks (fun _ => true) 100 70 exFound [⟨[3], 20, 9⟩, ⟨[2], 30, 5⟩, ⟨[1], 60, 0⟩] =
-    ([⟨[3], 20, 9⟩, ⟨[2], 30, 5⟩], [⟨[1], 60, 0⟩], 67) := by decide
-example : clean exMarks exMarks (fun _ => true) 100 70 exFound [⟨[1], 60, 0⟩, ⟨[2], 30, 5⟩, ⟨[3], 20, 9⟩] =
-    ([⟨[1], 60, 0⟩], [⟨[2], 30, 5⟩, ⟨[3], 20, 9⟩], 57) := by decide
+example : clean exMarks exMarks (fun _ => true) (fun _ => true) 100 70 exFound [⟨[3], 20, 9⟩, ⟨[2], 30, 5⟩, ⟨[1], 60, 0⟩] =
+    ⟨[⟨[3], 20, 9⟩, ⟨[2], 30, 5⟩], [⟨[1], 60, 0⟩], [], 67⟩ := by decide
+example : clean exMarks exMarks (fun _ => true) (fun _ => true) 100 70 exFound [⟨[1], 60, 0⟩, ⟨[2], 30, 5⟩, ⟨[3], 20, 9⟩] =
+    ⟨[⟨[1], 60, 0⟩], [⟨[2], 30, 5⟩, ⟨[3], 20, 9⟩], [], 57⟩ := by decide
 example : specOK exMarks exMarks 100 70 exFound [⟨[3], 20, 9⟩, ⟨[2], 30, 5⟩] 67 = true := by decide
 example : specOK exMarks exMarks 100 70 exFound [⟨[1], 60, 0⟩] 57 = true := by decide
 -- an entry marked between the walk and the loop ([3], by a Retrieve) is skipped: in the order 20, 30, 60 the pass now
 -- evicts 30 and 60 and ends at 117 - 30 - 60 = 27
 def exLate : Marks := fun p => if p = [9] then some 7 else if p = [3] then some 0 else none
-example : clean exMarks exLate (fun _ => true) 100 70 exFound [⟨[3], 20, 9⟩, ⟨[2], 30, 5⟩, ⟨[1], 60, 0⟩] =
-    ([⟨[2], 30, 5⟩, ⟨[1], 60, 0⟩], [⟨[3], 20, 9⟩], 27) := by decide
+example : clean exMarks exLate (fun _ => true) (fun _ => true) 100 70 exFound [⟨[3], 20, 9⟩, ⟨[2], 30, 5⟩, ⟨[1], 60, 0⟩] =
+    ⟨[⟨[2], 30, 5⟩, ⟨[1], 60, 0⟩], [⟨[3], 20, 9⟩], [], 27⟩ := by decide
 example : specOK exMarks exLate 100 70 exFound [⟨[2], 30, 5⟩, ⟨[1], 60, 0⟩] 27 = true := by decide
 example : specOK exMarks exLate 100 70 exFound [⟨[3], 20, 9⟩, ⟨[2], 30, 5⟩] 67 = false := by decide
 -- and the spec is not vacuous: evicting the marked entry, or stopping above the low-water mark, is rejected
@@ -161,9 +202,9 @@ example : specOK exMarks exMarks 100 70 exFound [⟨[3], 20, 9⟩] 97 = false :=
     the pass ends with nothing removed and 70 ≥ 50 left.  (The cleaner only starts at the high-water mark.) -/
 theorem C14_witness_below_high :
     ∃ (found : List Entry) (high low : Nat),
-      (clean (fun _ => none) (fun _ => none) (fun _ => true) high low found found).1 = [] ∧
-      low ≤ sizeSum (clean (fun _ => none) (fun _ => none) (fun _ => true) high low found found).2.1 ∧
-      (clean (fun _ => none) (fun _ => none) (fun _ => true) high low found found).2.1 ≠ [] :=
+      (clean (fun _ => none) (fun _ => none) (fun _ => true) (fun _ => true) high low found found).evicted = [] ∧
+      low ≤ sizeSum (clean (fun _ => none) (fun _ => none) (fun _ => true) (fun _ => true) high low found found).kept ∧
+      (clean (fun _ => none) (fun _ => none) (fun _ => true) (fun _ => true) high low found found).kept ≠ [] :=
   ⟨[⟨[1], 70, 0⟩], 100, 50, by decide, by decide, by decide⟩
 
 /-! ## Names: what is an entry, what is protected -/
@@ -231,7 +272,7 @@ theorem C14_witness_inflight_compressed :
     ∃ (marks : Marks) (found : List Entry) (high low : Nat),
       (∀ k ∈ markKeys (entryName b64Key C14.compressedSuffixBytes), marks k = some 0) ∧
       (∀ e ∈ found, recognised true false e.path = true) ∧
-      (clean marks marks (fun _ => true) high low found found).1 =
+      (clean marks marks (fun _ => true) (fun _ => true) high low found found).evicted =
         [⟨tmpName b64Key C14.tmpSuffixBytes C14.compressedSuffixBytes, 50, 0⟩] :=
   ⟨fun p => if p ∈ markKeys (entryName b64Key C14.compressedSuffixBytes) then some 0 else none,
    [⟨tmpName b64Key C14.tmpSuffixBytes C14.compressedSuffixBytes, 50, 0⟩], 10, 5,
